@@ -12,11 +12,8 @@ from typing import Tuple, Union, List, cast
 # Type alias for 3D vectors - can be list or tuple
 Vec3 = Union[List[float], Tuple[float, float, float]]
 
-# Pre-allocated temporary vectors for performance (like TypeScript gl-matrix)
-midpointAB = [0.0, 0.0, 0.0]
-crossCD = [0.0, 0.0, 0.0]
-scaledA = [0.0, 0.0, 0.0]
-scaledB = [0.0, 0.0, 0.0]
+# Temporary vectors are allocated per call: module level scratch space (as in the TypeScript
+# original) is shared between threads and lets concurrent calls overwrite each other's values
 
 def create() -> List[float]:
     """
@@ -314,7 +311,8 @@ def tripleProduct(a: Vec3, b: Vec3, c: Vec3) -> float:
     Returns:
         scalar result a · (b × c)
     """
-    # Compute cross product b × c using global temp vector
+    # Compute cross product b × c using a temp vector
+    crossCD = create()
     cross(crossCD, b, c)
     # Return dot product a · (b × c)
     return dot(a, crossCD)
@@ -344,6 +342,7 @@ def vectorDifference(A: "Cartesian", B: "Cartesian") -> float:
     # ⇒ sqrt(1 - cos(x)) = sqrt(2) * sin(x/2) 
     # Angle x/2 can be obtained as the angle between A and the normalized midpoint of A and B
     # ⇒ sin(x/2) = |cross(A, midpointAB)|
+    midpointAB = create()
     lerp(midpointAB, A, B, 0.5)
     normalize(midpointAB, midpointAB)
     cross(midpointAB, A, midpointAB)
@@ -352,6 +351,7 @@ def vectorDifference(A: "Cartesian", B: "Cartesian") -> float:
     # Math.sin(x) = x for x < 1e-8
     if D < 1e-8:
         # When A and B are close or equal sin(x/2) ≈ x/2, just take the half-distance between A and B
+        crossCD = create()
         subtract(crossCD, A, B)
         half_distance = 0.5 * length(crossCD)
         return half_distance
@@ -368,6 +368,7 @@ def quadrupleProduct(out: Vec3, A: "Cartesian", B: "Cartesian", C: "Cartesian", 
     Returns:
         out
     """
+    crossCD, scaledA, scaledB = create(), create(), create()
     cross(crossCD, C, D)
     triple_product_acd = dot(A, crossCD)
     triple_product_bcd = dot(B, crossCD)
@@ -394,6 +395,7 @@ def slerp(out: Vec3, A: "Cartesian", B: "Cartesian", t: float) -> "Cartesian":
     
     weight_a = math.sin((1 - t) * gamma) / math.sin(gamma)
     weight_b = math.sin(t * gamma) / math.sin(gamma)
+    scaledA, scaledB = create(), create()
     scale(scaledA, A, weight_a)
     scale(scaledB, B, weight_b)
     add(out, scaledA, scaledB)
